@@ -9,6 +9,7 @@ mod zlibffi;
 mod corpus;
 mod drv;
 mod streams;
+mod explore;
 mod props;
 
 use std::cell::RefCell;
